@@ -24,6 +24,11 @@ structure DictModel where
   locate : Str → Option Nat
   extract : Nat → Option (Option Str)
   image : Option (List UInt8) := none
+  /-- exact kinds with a model of their loader: given the stream (image ++ trailer), the answers of
+  the reloaded object (locate, extract, numElements, maxLength, its own re-saved image) and the rest
+  of the stream -/
+  reload : Option (List UInt8 → Option ((Str → Option Nat) × (Nat → Option (Option Str)) × Nat × Nat ×
+    Option (List UInt8) × List UInt8)) := none
   exact : Bool := false      -- answers come from an exact model: `none` is a model fault, not "unknown"
 
 def isHashKind (k : String) : Bool :=
@@ -82,6 +87,7 @@ def runDict (c : Case) (m : DictModel) (emit : Nat → String → IO Unit) : IO 
   let mut k := 0
   let mut open_ : List (String × IterState) := []
   let S := m.S
+  let mut m := m
   for op in c.ops do
     k := k + 1
     match op with
@@ -142,8 +148,26 @@ def runDict (c : Case) (m : DictModel) (emit : Nat → String → IO Unit) : IO 
       | none => emit k "I ?"
     | ["save2"] => emit k "S2 same"
     | "blocksdet" :: _ => emit k "BD same"
-    | "reload" :: _ => emit k "R ok consumed=all"
-    | "resave" :: _ => emit k "RS same"
+    | "reload" :: _ =>
+      -- a modelled loader really parses the image (followed by a trailer it must leave alone)
+      match m.reload, m.image with
+      | some ld, some img =>
+        let trailer : List UInt8 := [0xde, 0xad, 0xbe, 0xef]
+        match ld (img ++ trailer) with
+        | some (loc, ext, n, ml, img', rest) =>
+          if rest == trailer then
+            m := { m with locate := loc, extract := ext, numElements := n, maxLength := ml, image := img' }
+            emit k "R ok consumed=all"
+          else emit k s!"R ok consumed=MODEL-{rest.length}"
+        | none => emit k "R MODEL-FAULT"
+      | _, _ => emit k "R ok consumed=all"
+    | "resave" :: _ =>
+      match m.reload, m.image with
+      | some ld, some img =>
+        match ld img with
+        | some (_, _, _, _, some img', []) => emit k (if img' == img then "RS same" else "RS MODEL-DIFF")
+        | _ => emit k "RS MODEL-FAULT"
+      | _, _ => emit k "RS same"
     | "foreign" :: _ => emit k "F NULL"
     | "iopen" :: name :: what :: rest =>
       let p := unhex (rest.headD "-")
